@@ -151,6 +151,16 @@ def run(tier, fx=None, ck=None, control=False):
                 d = t[1].get("d")
                 if d in this_store_helpers and d != f.path and not is_field_fn(d):
                     sites.append((bi, t[6], d.split("::")[-1]))
+            # the stores may sit in a closure of the constructor compiler (one block of initialisers emitted before the body or after `super(...)`)
+            clos = [g for g in fx.fns.values() if g.closure and g.parent == f.path and aggs(g, "Op", "SetPropertyConst")]
+            for bi, t in f.calls():
+                d = t[1].get("d") or ""
+                hit = d in {g.path for g in clos}
+                if not hit and d.endswith(("::call", "::call_mut", "::call_once")) and t[2] and t[2][0][0] in ("c", "m"):
+                    ty = fx.tys(f.locals[t[2][0][1][0]])
+                    hit = any(("{closure@%s:" % g.span.split("-")[0]) in ty for g in clos)
+                if hit:
+                    sites.append((bi, t[6], "closure"))
             ck.anchor(bool(sites), pre + "this-store emission in " + f.path)
             for bi, sp, how in sites:
                 ok = bi not in body
@@ -162,6 +172,17 @@ def run(tier, fx=None, ck=None, control=False):
             # PP3
             fields = [(bi, t) for bi, t in f.calls() if t[1].get("local") and t[1].get("d") in fx.fns and
                       any("ClassProperty" in fx.tys(fx.fns[t[1]["d"]].locals[i]) for i in range(1, fx.fns[t[1]["d"]].argc + 1))]
+            # inside such a closure the same order holds: the stores come before the field initialisers
+            for g in clos:
+                gstores = [bi for bi, s in aggs(g, "Op", "SetPropertyConst")]
+                for cb, ct in [(bi, t) for bi, t in g.calls() if t[1].get("local") and t[1].get("d") in fx.fns and
+                               any("ClassProperty" in fx.tys(fx.fns[t[1]["d"]].locals[i]) for i in range(1, fx.fns[t[1]["d"]].argc + 1))]:
+                    late = [bi for bi in gstores if bi in g.reachable_from(cb)]
+                    ck.instance("PP3.stores-before-fields", "%s: %s after the parameter-property stores" % (g.path, ct[1]["d"].split("::")[-1]), F.short_span(ct[6]), ok=not late)
+                    if late:
+                        ck.finding("PP3.stores-before-fields", "PP3.stores-before-fields/%s/%s" % (f.path, ct[1]["d"].split("::")[-1]), F.short_span(ct[6]),
+                                   "`%s` compiles instance field initialisers before the parameter-property stores: `class C { y = this.x; "
+                                   "constructor(public x) {} }` reads undefined" % f.path)
             for cb, ct in fields:
                 late = [bi for bi, sp, how in sites if bi in f.reachable_from(cb)]
                 ok = not late
@@ -264,6 +285,15 @@ def run(tier, fx=None, ck=None, control=False):
                 ck.finding("N2.publish-in-source-order", "N2.publish-in-source-order/%s" % g.path, F.short_span(g.span),
                            "`%s` publishes the exported members in a loop that does not compile the statements: the namespace object stays empty while the body "
                            "runs, so `namespace C { export const a = 10; export const b = C.a * 2 }` gives NaN (TypeScript assigns `C.a` before `b` is initialised)" % g.path)
+    # ------------------------------------------------------------ E8
+    import ctororder
+    ck.rule("E8.initialisers-follow-super", "a constructor compiler that compiles user statements emits the field / parameter-property initialisers inside the statement loop "
+                                            "(after `super(...)`); one that emits the super call itself emits them only past it", floor=2 if own else 0)
+    for f8, kind8, ok8, sp8, why8 in ctororder.rule(fx, (lambda g: g.file.startswith("src/compiler")) if own else (lambda g: g.path.startswith("c04::"))):
+        ck.instance("E8.initialisers-follow-super", "%s (%s constructor)" % (f8.path, kind8), F.short_span(sp8), ok=ok8)
+        if not ok8:
+            ck.finding("E8.initialisers-follow-super", "E8.initialisers-follow-super/%s" % f8.path, F.short_span(sp8),
+                       "`%s`: %s - in a derived class `y = this.x + 1` reads an uninitialised `this` (NaN) and `constructor(public x) { super() }` is overwritten by the base class" % (f8.path, why8))
     if not own:
         return None
     ctl = F.load_fixture()
